@@ -107,6 +107,16 @@ def source_facts(repo=None):
 FACTS = {"else_assigns": False}
 
 
+def observed_facts():
+    """The one fact the model is parametrised by -- when BOTH tolerance modes are "absolute", does classify leave
+    self.abs_pos_tol unset (None: the pinned behaviour, TypeError later in the 2D branch) or set it to pos_tol? -- is
+    OBSERVED on the running code (a Classifier with both modes absolute classifies a small molecule; the attribute is read
+    afterwards).  Unlike reading the AST this survives behaviour-preserving rewrites of classify; source_facts() is still
+    evaluated and reported, but only as information."""
+    r = C.impl_run("c17_impl", {"facts": True})
+    return {"else_assigns": bool(r["facts"]["abs_pos_tol_set_when_both_absolute"])}
+
+
 # ---------------------------------------------------------------------------------------------
 # structures
 # ---------------------------------------------------------------------------------------------
@@ -968,12 +978,13 @@ def run(ctx):
         "structures with at least one atom (Classifier().classify(Atoms()) crashes the interpreter inside matid.ext: outside the stated family)",
     ]
     broken = None
+    FACTS.update(observed_facts())
     try:
-        FACTS.update(source_facts())
-        ctx.add_obligations(1, 1, "source fact else_assigns=%s read from the AST of Classifier.classify (fail-closed)" % FACTS["else_assigns"])
+        ast_facts = source_facts()
+        ctx.coverage["source_facts_ast"] = dict(ast_facts, agrees_with_observation=(ast_facts == FACTS))
     except (TranslationError, SyntaxError, OSError) as e:
-        ctx.add_obligations(1, 0, "source fact of Classifier.classify")
-        broken = {"stage": "translate", "error": str(e)}
+        ctx.coverage["source_facts_ast"] = {"unreadable": str(e)[:200],
+                                            "note": "informational only: the fact is observed on the running code; the mode block of classify was rewritten"}
     ctx.coverage["source_facts"] = dict(FACTS)
     pres = C.prove_property(PID)
     ctx.record_proof(pres)
@@ -1031,10 +1042,7 @@ def replay(ctx, rep):
         else:
             print("replay: no input recorded; the proof obligations hold now")
         return
-    try:
-        FACTS.update(source_facts())
-    except (TranslationError, SyntaxError, OSError) as e:
-        C.log("[C17] source facts: %s" % e)
+    FACTS.update(observed_facts())
     dist = new_dist()
     failures, _, rows = evaluate(ctx, "replay", [dict(case)], dist)
     bad = [f for f in failures if (f["clauses"] and rep.get("found_failing_input")) or (not rep.get("found_failing_input"))]
